@@ -115,6 +115,8 @@ DEFS = [None] + [{"title": ti, "chan_type": ct, **({"labels": lb} if lb is not N
                  for lb in (None, {"1": "x"}, {"1": "y"}, {"2": "x"}, {"1": "xy"})]     # "x" is a proper prefix of "xy": still a conflict
 # mark values are 64-bit: a label registered for 2^32+1 is not a label for 1 (and does not clash with one)
 DEFS += [{"title": "a", "chan_type": "stack", "labels": {"1": "x", "4294967297": "big"}}, {"title": "a", "chan_type": "stack", "labels": {"4294967297": "big"}}]
+# ... up to the largest value there is
+DEFS += [{"title": "a", "chan_type": "stack", "labels": {"1": "x", "9223372036854775807": "max"}}]
 
 
 def conflict(a, b):
